@@ -66,7 +66,7 @@ DomSuite ==
               {<<"R3", "RC", "EC", "EG">>, <<"RC", "EG", "R3", "EC">>, <<"XG", "RC", "EG">>, <<"EC", "XG">>},
      alpn |-> {<<>>, <<"h2">>},
      sni |-> {"a"},
-     svmm |-> IF Thorough THEN {<<0, 0>>, <<0, 11>>, <<11, 12>>} ELSE {<<0, 0>>, <<0, 11>>},
+     svmm |-> IF Thorough THEN {<<0, 0>>, <<0, 11>>, <<11, 12>>} ELSE {<<0, 0>>},
      cert |-> {"rsa", "ecdsa"},
      ssuites |-> {<<>>, <<"R3", "RC", "EC", "EG", "XG">>, <<"EC", "RC", "EG", "R3">>} \cup
                  OrderedSubsets(AllSuites, 1, IF Thorough THEN 3 ELSE 2),
@@ -89,7 +89,7 @@ DomAlpn ==
      craw |-> {<<"EG", "EC", "RC", "R3">>, <<"EC", "RC">>},
      alpn |-> AllAlpn,
      sni |-> {"a", "b"},
-     svmm |-> {<<0, 0>>, <<0, 11>>},
+     svmm |-> IF Thorough THEN {<<0, 0>>, <<0, 11>>} ELSE {<<0, 0>>},
      cert |-> {"rsa"},
      ssuites |-> {<<>>, <<"EC", "EG">>},
      prefer |-> {TRUE},
